@@ -578,7 +578,7 @@ impl<T: AsRef<[u8]>> UdpNhcPacket<T> {
                 let data = self.buffer.as_ref();
                 let start = self.nhc_fields_start();
 
-                0xf0b0 + (data[start] & 0xff) as u16
+                0xf0b0 + (data[start] & 0x0f) as u16
             }
             _ => unreachable!(),
         }
